@@ -39,6 +39,7 @@ type Item struct {
 	Via   string `json:"via,omitempty"`   // write: "" tx.Create(&row) | "exec" tx.Exec("INSERT ..") | "kept" through ONE chained handle h := tx.Model(&Marker{}) kept by the block body and reused for all its kept writes | write and read: "sess" tx.Session(&Session{}) | "sess_prep" tx.Session(&Session{PrepareStmt: true}) | "ctx" tx.WithContext(ctx): a handle derived from the block's handle for this one call
 	Empty bool   `json:"empty,omitempty"` // kept write: when it creates the handle, its first use is an update with an empty change set (no SQL)
 	Rcv   bool   `json:"rcv,omitempty"`   // child: the call is wrapped in a recover(); a panic of the child is swallowed
+	NN    bool   `json:"nn,omitempty"`    // child: called as tx.Session(&gorm.Session{DisableNestedTransaction: true}).Transaction(..): nested transactions switched off on the receiver, derived inside the running transaction
 	Cx    bool   `json:"cx,omitempty"`    // child: called as tx.WithContext(ctx).Transaction(..) with a fresh cancellable ctx; item "cancel" cancels the innermost such ctx
 	B     *Blk   `json:"b,omitempty"`     // child
 }
@@ -95,6 +96,7 @@ type Obs struct {
 	N         int64  `json:"n,omitempty"`         // read: the count seen
 	Entered   bool   `json:"entered,omitempty"`   // child: the block function was called
 	Cancelled bool   `json:"cancelled,omitempty"` // child with its own context: that context was cancelled inside it
+	NN        bool   `json:"nn,omitempty"`        // child: the call's receiver had nested transactions switched off (copied from the input)
 	Exit      Cls    `json:"exit"`                // child: how the block function ended
 	Body      []Obs  `json:"body,omitempty"`
 }
@@ -388,7 +390,7 @@ func (r *runner) body(h *gorm.DB, b *Blk, log *[]Obs) error {
 				r.cancels[n-1].obs.Cancelled = true
 			}
 		case "child":
-			o := Obs{K: "child"}
+			o := Obs{K: "child", NN: it.NN}
 			recovered := false
 			err := func() (err error) {
 				returned := false
@@ -410,11 +412,14 @@ func (r *runner) body(h *gorm.DB, b *Blk, log *[]Obs) error {
 					}
 				}()
 				recv := h
+				if it.NN { // nested transactions switched off on a handle derived from the block's handle
+					recv = h.Session(&gorm.Session{DisableNestedTransaction: true})
+				}
 				if it.Cx { // the nested block runs under its own context
 					ctx, cancel := context.WithCancel(context.Background())
 					r.cancels = append(r.cancels, cxScope{cancel, &o})
 					defer func() { r.cancels = r.cancels[:len(r.cancels)-1]; cancel() }()
-					recv = h.WithContext(ctx)
+					recv = recv.WithContext(ctx)
 				}
 				err = recv.Transaction(func(tx *gorm.DB) error { return r.fc(tx, it.B, &o) })
 				returned = true
@@ -712,7 +717,7 @@ func progTerm(b *Blk) string {
 		case "rbto":
 			out = lib.App("RbTo", lib.Z(it.M), out)
 		case "child":
-			out = lib.App("Child", progTerm(it.B), lib.Bool(it.Chk), lib.Bool(it.Rcv), lib.Bool(it.Cx), out)
+			out = lib.App("Child", progTerm(it.B), lib.Bool(it.Chk), lib.Bool(it.Rcv), lib.Bool(it.Cx), lib.Bool(it.NN), out)
 		case "cancel":
 			out = lib.App("Cancel", out)
 		}
@@ -731,7 +736,11 @@ func obsTerm(o Obs) string {
 	case "rbto":
 		return lib.App("ORb", lib.Z(o.M), clsTerm(o.Ret))
 	}
-	return lib.App("OC", lib.Bool(o.Entered), lib.ListOf(o.Body, obsTerm), clsTerm(o.Exit), clsTerm(o.Ret))
+	oc := lib.App("OC", lib.Bool(o.Entered), lib.ListOf(o.Body, obsTerm), clsTerm(o.Exit), clsTerm(o.Ret))
+	if o.NN {
+		return lib.App("ONN", oc)
+	}
+	return oc
 }
 
 func opTerm(o Op) string {
@@ -831,7 +840,7 @@ func (g *gen) blk(depth, maxDepth int, edge bool) Blk {
 				}
 				cb := g.blk(depth+1, maxDepth, edge)
 				g.inCx = was
-				it := Item{K: "child", B: &cb, Chk: r.Chance(1, 2), Rcv: r.Chance(1, 3), Cx: cx}
+				it := Item{K: "child", B: &cb, Chk: r.Chance(1, 2), Rcv: r.Chance(1, 3), Cx: cx, NN: r.Chance(1, 6)}
 				if it.Rcv && r.Bool() { // recovered panics are only interesting when there is one
 					cb.Out, cb.E = "panic", g.esent%16
 					g.esent++
@@ -911,6 +920,9 @@ func shapeBlk(b *Blk, sb *strings.Builder) {
 		if it.Cx {
 			sb.WriteByte('@')
 		}
+		if it.NN {
+			sb.WriteByte('~')
+		}
 		if it.K == "cancel" {
 			sb.WriteByte('x')
 		}
@@ -940,7 +952,10 @@ const sigCancel = "nested-rollback-under-cancelled-context"
 // inside it and then failed (error or panic).
 func cancelledFailing(log []Obs) bool {
 	for _, o := range log {
-		if o.K == "child" && (o.Cancelled && o.Entered && o.Exit.K != "nil" && o.Exit.K != "" || cancelledFailing(o.Body)) {
+		if o.K != "child" || o.NN { // with nested transactions switched off nothing below is to be undone by a block itself
+			continue
+		}
+		if o.Cancelled && o.Entered && o.Exit.K != "nil" && o.Exit.K != "" || cancelledFailing(o.Body) {
 			return true
 		}
 	}
@@ -1007,6 +1022,10 @@ func smallTrees(depth int, g *gen) []Blk {
 					}
 					if k.Out == "panic" || len(k.Items) > 0 {
 						mk(k, false, true)
+					}
+					if len(k.Items) > 0 && (k.Out != "nil" || pre+post == 2) { // nested transactions switched off for this one call
+						mk(k, pre == 1, false)
+						outs[len(outs)-1].Items[len(outs[len(outs)-1].Items)-1-post].NN = true
 					}
 				}
 			}
